@@ -103,9 +103,13 @@ func ParseVendorData(packet dhcpv6.DHCPv6) (*VendorData, error) {
 			}
 			vd.VendorName = iana.EnterpriseIDCienaCorporation.String()
 			vd.Model = v[1] + "-" + v[2]
-			duid := packet.(*dhcpv6.Message).Options.ClientID()
-			if enterpriseDUID, ok := duid.(*dhcpv6.DUIDEN); ok {
-				vd.Serial = string(enterpriseDUID.EnterpriseIdentifier)
+			// the client ID lives in the (innermost) message, also when the
+			// vendor options were found on a relay message
+			if msg, err := packet.GetInnerMessage(); err == nil {
+				duid := msg.Options.ClientID()
+				if enterpriseDUID, ok := duid.(*dhcpv6.DUIDEN); ok {
+					vd.Serial = string(enterpriseDUID.EnterpriseIdentifier)
+				}
 			}
 			return &vd, nil
 		}
